@@ -25,14 +25,15 @@ theorem run_abs_from {s : VariableSet} (h : Norm s) (ops : List Op) :
 
 /-- what happens inside a volatile context set up for a command: `Volatile`-scope accesses -/
 def isTopVolOp : Op → Bool
-  | .getOrNew _ .volatile | .assign _ .volatile _ _ | .export _ .volatile _ | .readonly _ .volatile _ => true
+  | .getOrNew _ .volatile | .assign _ .volatile _ _ | .export _ .volatile _ | .readonly _ .volatile _
+  | .quirk _ .volatile _ => true
   | _ => false
 
 /-- what `typeset` (local), `unset` of a local and `set --` do inside a function: `Local`-scope
     accesses and the positional parameters -/
 def isTopRegOp : Op → Bool
   | .getOrNew _ .loc | .assign _ .loc _ _ | .export _ .loc _ | .readonly _ .loc _ | .unset _ .loc
-  | .setParams _ => true
+  | .setParams _ | .quirk _ .loc _ => true
   | _ => false
 
 theorem getOrNew_vol_top (c : SCtx) (t : SSet) (n : Name) (hc : c.kind.isRegular = false) :
@@ -65,6 +66,10 @@ theorem step_topVol (c : SCtx) (t : SSet) (hc : c.kind.isRegular = false) (op : 
     cases sc <;> simp [isTopVolOp] at h
     obtain ⟨c', w, hg, hk, hw⟩ := getOrNew_vol_top c t n hc
     exact ⟨c'.set n (some (w.makeReadOnly loc)), by simp only [SSet.step, hg, modifyVisible_top c' t n _ w hw], by show c'.kind.isRegular = _; rw [hk, hc]⟩
+  | quirk n sc q =>
+    cases sc <;> simp [isTopVolOp] at h
+    obtain ⟨c', w, hg, hk, hw⟩ := getOrNew_vol_top c t n hc
+    exact ⟨c'.set n (some (w.setQuirk q)), by simp only [SSet.step, hg, modifyVisible_top c' t n _ w hw], by show c'.kind.isRegular = _; rw [hk, hc]⟩
   | push _ => simp [isTopVolOp] at h
   | pop => simp [isTopVolOp] at h
   | unset _ _ => simp [isTopVolOp] at h
@@ -106,6 +111,10 @@ theorem step_topReg (c : SCtx) (t : SSet) (hc : c.kind.isRegular = true) (op : O
     cases sc <;> simp [isTopRegOp] at h
     obtain ⟨c', w, hg, hk, hw⟩ := getOrNew_loc_top c t n hc
     exact ⟨c'.set n (some (w.makeReadOnly loc)), by simp only [SSet.step, hg, modifyVisible_top c' t n _ w hw], by show c'.kind.isRegular = _; rw [hk, hc]⟩
+  | quirk n sc q =>
+    cases sc <;> simp [isTopRegOp] at h
+    obtain ⟨c', w, hg, hk, hw⟩ := getOrNew_loc_top c t n hc
+    exact ⟨c'.set n (some (w.setQuirk q)), by simp only [SSet.step, hg, modifyVisible_top c' t n _ w hw], by show c'.kind.isRegular = _; rw [hk, hc]⟩
   | unset n sc =>
     cases sc <;> simp [isTopRegOp] at h
     simp only [SSet.step, SSet.unset, scopeDepth, volPrefix, hc, if_true, Nat.zero_add, firstReadOnly]
